@@ -780,6 +780,79 @@ theorem proposer_and_total_are_snapshot {ext : Ext} {fuel : Nat} {w : World} {b 
     (∀ a bl, (ballotsOf w.flex.core id).get? a = some bl → memberAt w.group a p.startHeight = some bl.weight) := by
   exact ⟨(flex_sum_ballots_le_total hr hp hc).2.2.symm, fun a bl hb => hr.totalInv.ballot_in_snapshot hp hc hb⟩
 
+/-! ## later changes are irrelevant over a whole history suffix; `ReachableSnap` along `run` -/
+
+/-- The group's changelogs are bounded by `H`, and every at-height answer for a height `≤ H0` is the one of `w0`. -/
+structure FrozenBelow (w0 : World) (H0 : Nat) (w : World) (H : Nat) : Prop where
+  le : H0 ≤ H
+  membersLe : w.group.members.LogLe H
+  totalLe : w.group.total.LogLe H
+  member : ∀ a h, h ≤ H0 → memberAt w.group a h = memberAt w0.group a h
+  total : ∀ h, h ≤ H0 → Cw4Group.queryTotalWeight w.group (some h) = Cw4Group.queryTotalWeight w0.group (some h)
+
+theorem frozen_step (ext : Ext) (fuel : Nat) {w0 w : World} {H0 H : Nat} (op : Op) (hq : FrozenBelow w0 H0 w H)
+    (hH : H ≤ op.blk.height) : FrozenBelow w0 H0 (step ext fuel w op) op.blk.height := by
+  have hq' : FrozenBelow w0 H0 w op.blk.height :=
+    ⟨Nat.le_trans hq.le hH, hq.membersLe.mono hH, hq.totalLe.mono hH, hq.member, hq.total⟩
+  unfold step
+  split
+  · rename_i w' htx
+    refine tx_inv ext (fun w => FrozenBelow w0 H0 w op.blk.height) op.blk
+      (fun w snd funds em s' out hq he => ⟨hq.le, hq.membersLe, hq.totalLe, hq.member, hq.total⟩)
+      (fun w snd m g' outs hq hg => ?_)
+      (fun w b hq => ⟨hq.le, hq.membersLe, hq.totalLe, hq.member, hq.total⟩)
+      (fun w t hq => ⟨hq.le, hq.membersLe, hq.totalLe, hq.member, hq.total⟩) hq' htx
+    have hs := CwPlus.Props.C09.execute_sameBlock hg
+    refine ⟨hq.le, hs.1.logLe hq.membersLe (Nat.le_refl _), hs.2.logLe hq.totalLe (Nat.le_refl _), ?_, ?_⟩
+    · intro a h hh
+      rw [← hq.member a h hh]
+      exact hs.1.atHeight_le hq.membersLe a (Nat.le_trans hh hq.le)
+    · intro h hh
+      rw [← hq.total h hh]
+      simp only [Cw4Group.queryTotalWeight]
+      rw [hs.2.atHeight_le hq.totalLe (Nat.le_trans hh hq.le)]
+  · exact hq'
+
+/-- **Later membership changes never alter any snapshot answer — over a whole history** (clause f).  From a world whose
+group changelogs are bounded by `H`, run ANY further history (transactions on the multisig, the group, the token; group
+updates dispatched by proposals and hooks included) at non-decreasing block heights `≥ H`: the group's answers
+`Member { addr, at_height: h }` and `TotalWeight { at_height: h }` are unchanged for every `h ≤ H` — in particular for
+the start height of every proposal that already exists, so the weights of future ballots and the snapshot totals of
+existing proposals are unaffected by anything that happens later.  (Recorded ballots and totals themselves never
+change: `C05Flex.ballot_never_changes`, `C05Flex.proposal_immutable`.) -/
+theorem later_changes_irrelevant_run (ext : Ext) (fuel : Nat) (ops : List Op) : ∀ (w : World) (H : Nat),
+    w.group.members.LogLe H → w.group.total.LogLe H → (∀ op ∈ ops, H ≤ op.blk.height) → Ordered ops →
+    (∀ a h, h ≤ H → memberAt (run ext fuel w ops).group a h = memberAt w.group a h) ∧
+    (∀ h, h ≤ H → Cw4Group.queryTotalWeight (run ext fuel w ops).group (some h) = Cw4Group.queryTotalWeight w.group (some h)) := by
+  intro w H hm ht hge hord
+  have key : ∀ (ops : List Op) (v : World) (K : Nat), FrozenBelow w H v K → (∀ op ∈ ops, K ≤ op.blk.height) → Ordered ops →
+      ∃ K', FrozenBelow w H (run ext fuel v ops) K' := by
+    intro ops
+    induction ops with
+    | nil => intro v K hq _ _; exact ⟨K, hq⟩
+    | cons op rest ih =>
+      intro v K hq hge hord
+      have hp := List.pairwise_cons.mp hord
+      exact ih _ op.blk.height (frozen_step ext fuel op hq (hge op (by simp))) (fun o ho => hp.1 o ho) hp.2
+  obtain ⟨K', hq⟩ := key ops w H ⟨Nat.le_refl _, hm, ht, fun _ _ _ => rfl, fun _ _ => rfl⟩ hge hord
+  exact ⟨hq.member, hq.total⟩
+
+/-- A list of transactions whose blocks never go back, starting at or after `b`. -/
+def BlocksFrom : Block → List Op → Prop
+  | _, [] => True
+  | b, op :: rest => C04.later b op.blk ∧ BlocksFrom op.blk rest
+
+/-- the block of the last transaction (`b` if there is none) -/
+def lastBlock : Block → List Op → Block
+  | b, [] => b
+  | _, op :: rest => lastBlock op.blk rest
+
+/-- `ReachableSnap` along `run`: any further history whose blocks never go back leads to a `ReachableSnap` world. -/
+theorem ReachableSnap.run {ext : Ext} {fuel : Nat} : ∀ (ops : List Op) {w : World} {b : Block},
+    ReachableSnap ext fuel w b → BlocksFrom b ops → ReachableSnap ext fuel (Cw3Flex.run ext fuel w ops) (lastBlock b ops)
+  | [], _, _, hr, _ => hr
+  | op :: rest, _, _, hr, hb => ReachableSnap.run rest (ReachableSnap.step op hr hb.1) hb.2
+
 /-- Non-vacuity: the history of `C06_flex_counterexample` moved one block on (group update in block 10, `Propose` in
 block 11, `b` votes in block 12) is a `ReachableSnap` history, the guard holds for proposal 1, and ballots 3 + 4 = 7 ≤
 total 7.  In the counterexample history itself the guard is false. -/
@@ -830,5 +903,12 @@ example :
     let w := run Cex.noExt 10 Cex.world0 (Cex.ops.take 2)
     (Cw3Flex.execute w.flex w.group "ms" ⟨11, 0⟩ "b" [] (.vote 1 .no)).isOk = true := by
   decide
+
+/-- non-vacuity of `later_changes_irrelevant_run` and `ReachableSnap.run`: `Cex.opsOk` is ordered, at heights ≥ 5 (the
+bound of `group0`'s changelogs), and its blocks never go back from block 10 -/
+example : Ordered Cex.opsOk ∧ (∀ op ∈ Cex.opsOk, 5 ≤ op.blk.height) ∧ BlocksFrom ⟨10, 0⟩ Cex.opsOk ∧
+    lastBlock ⟨10, 0⟩ Cex.opsOk = ⟨12, 0⟩ :=
+  ⟨by unfold Ordered; decide, by decide,
+   ⟨⟨by decide, by decide⟩, ⟨by decide, by decide⟩, ⟨by decide, by decide⟩, trivial⟩, rfl⟩
 
 end CwPlus.Props.C06Flex
